@@ -689,6 +689,22 @@ class C19(OwnProfile):
             n = r.randrange(1, 6)
             return {"op": "new", "kind": "bi", "label": w.fresh("bi"), "uuid": r.getrandbits(128),
                     "attrs": {"contents": bytes(r.randrange(256) for _ in range(n)).hex(), "size": r.randrange(0, n)}}
+        if fam == "new" and r.random() < 0.15:
+            # two intervals built from ONE caller-owned bytearray, which the caller may edit later
+            k = "s%d" % r.randrange(2)
+            buf = w.shared_bytes.get(k)
+            data = bytes(buf).hex() if buf is not None and len(buf) <= 12 else bytes(r.randrange(256) for _ in range(r.randrange(1, 5))).hex()
+            n = len(data) // 2
+            op = {"op": "new", "kind": "bi", "label": w.fresh("bi"), "uuid": r.getrandbits(128), "shared": k,
+                  "attrs": {"contents": data, "size": n + r.randrange(0, 6)}}
+            secs = w.m.by_kind("sec")
+            if secs and r.random() < 0.7:
+                op["parent"] = secs[r.randrange(len(secs))]
+            return op
+        if fam == "bytes" and w.shared_bytes and r.random() < 0.1:
+            bis = w.m.by_kind("bi")
+            if bis:
+                return {"op": "bytes", "bi": bis[0], "method": "poke_shared", "args": [sorted(w.shared_bytes)[r.randrange(len(w.shared_bytes))]]}
         if fam == "new" and r.random() < 0.2:
             n = r.randrange(0, 5)
             size = n + r.randrange(0, 5)
